@@ -875,6 +875,47 @@ pub mod verif {
         }
     }
 
+    /// The real replication cycle (the poller's own loop: initial wait, interval,
+    /// membership operations, one `repair_members` per tick), started without a full store.
+    pub struct ReplicationLoop(crate::replication::ReplicationHandle);
+
+    impl ReplicationLoop {
+        pub async fn start<S: Storage>(
+            group: KeyspaceGroup<S>,
+            network: RpcNetwork,
+            repair_interval: std::time::Duration,
+        ) -> Self {
+            let ctx = crate::replication::ReplicationCycleContext {
+                repair_interval,
+                group,
+                network,
+            };
+            Self(crate::replication::start_replication_cycle(ctx).await)
+        }
+
+        pub fn membership_change(&self, change: MembershipChange) {
+            self.0.membership_change(change)
+        }
+
+        pub fn kill(&self) {
+            self.0.kill()
+        }
+    }
+
+    /// Spawns the store's real `watch_membership_changes` task, which forwards the node's
+    /// membership events to the distributor and to the replication cycle.
+    pub fn spawn_membership_watch(
+        distributor: &Distributor,
+        replication: &ReplicationLoop,
+        node: DatacakeHandle,
+    ) -> tokio::task::JoinHandle<()> {
+        tokio::spawn(crate::watch_membership_changes(
+            distributor.0.clone(),
+            replication.0.clone(),
+            node,
+        ))
+    }
+
     /// Builds the public store handle from its parts.
     pub fn new_store_handle<S: Storage>(
         node: DatacakeHandle,
